@@ -585,6 +585,14 @@ def cli_witness(ctx, obligations_failed, tie_fail):
     streams.CLI.env = {"PSV_CLI": os.path.join(ctx.repo_build, "primesieve")}
     return streams.CLI.witness(ctx, obligations_failed, tie_fail)
 
+def c14_tie(ctx, tie_fail):
+    """interleaved objects + concurrent user threads; thorough: the mt and count streams again on a ThreadSanitizer build
+    (a reported race aborts the harness = violation; supporting validation, the model cannot express races)"""
+    fs = [("multi", streams.MULTI.tie), ("mt", streams.MT.tie)]
+    if ctx.tier != "quick":
+        fs += [("mt-tsan", on_variant("tsan", streams.MT.tie))]
+    return combine(*fs)(ctx, tie_fail)
+
 def c12_tie(ctx, tie_fail):
     """sanitizer sweep: every stream runs the real code under ASan + UBSan + ENABLE_ASSERT; the quick tier leaves the two
     slowest streams (count, cli - both run by C04/C09/C16 on every change anyway) to the thorough tier"""
@@ -668,3 +676,5 @@ REGISTRY.update({
         explanation="chunk lengths requested by the iterator are bounded independently of the history (proof); peak heap bytes "
                     "measured for growing interval lengths (tie)"),
 })
+
+REGISTRY["C14"].tie = c14_tie
